@@ -60,7 +60,7 @@ def run(chk):
                            name_pool=['w', 'inner', 'h'] if i % 15 == 0 else None, input_shaped=0.3 if i % 4 == 1 else 0.0)
     streams = rng.choice([['params'], ['params', 'dropout'], ['params', 'dropout', 'noise'], ['dropout'], []])
     cases.append({'prog': prog, 'x': [rng.randint(-3, 3) for _ in range(n)], 'streams': streams, 'mutable': LP.gen_filter(rng),
-                  'repeat': rng.choice([1, 2, 3]), 'frozen': rng.random() < 0.3,
+                  'repeat': rng.choice([1, 2, 3]), 'frozen': rng.random() < 0.3, 'ordered': rng.random() < 0.25,
                   'drop_col': rng.choice([None, None, None, 'params', 'batch_stats', 'cache', 'perturbations']),
                   'empty_col': rng.choice([None, None, 'batch_stats', 'cache', 'counter', 'count', 'stats'])})
   W = 14
@@ -98,8 +98,12 @@ def run(chk):
     # ---- oracles
     if not r['inputs_untouched']:
       chk.violation('oracle', 'Module.apply changed one of its inputs (variables, module object, rng keys or arguments)', {'case': c})
-    if not r['repeat_equal']:
+    if not r['repeat_equal'] or r.get('after_capture_equal') is False:
       chk.violation('oracle', 'repeating apply with the same inputs gave a different result', {'case': c})
+    if r.get('mutable_untouched') is False:
+      chk.violation('oracle', 'Module.apply changed the `mutable` argument it was given (a list filter)', {'case': c})
+    if r.get('inputs_untouched_at_end') is False:
+      chk.violation('oracle', 'Module.apply (with capture_intermediates or observation collections) changed one of its inputs', {'case': c})
     if r.get('no_shared_dicts') is False:
       chk.violation('oracle', 'the returned variable tree shares a dict object with the variables passed in', {'case': c})
     if 'err' not in ap and ap['vars'] is not None:
